@@ -508,6 +508,9 @@ impl From<Value> for DataValue {
                     Self::Int64(bigint)
                 } else if let Ok(decimal) = n.parse::<Decimal>() {
                     Self::Decimal(decimal)
+                } else if let Ok(float) = n.parse::<f64>() {
+                    // scientific notation (`1e300`) and numbers beyond the DECIMAL range
+                    Self::Float64(float.into())
                 } else {
                     panic!("invalid digit: {}", n);
                 }
